@@ -140,7 +140,13 @@ func CheckLivelock(h *History) ([]Finding, LivelockFacts) {
 						noBeneficiaryStarts = false
 					}
 				}
-				if onlyFresh {
+				// The two listed findings need the allocate order of the queues and the reclaim criterion to disagree. In the
+				// constructed exact-tie families (equal quota, weight, priority, identical workloads) they cannot disagree
+				// as long as ties are broken by fixed inputs - the unchanged tree produces no loop at all there - so a loop
+				// in such a world is never one of the listed findings: something follows the current holdings.
+				if h.World != nil && h.World.Family == "tie" {
+					sig = "c15-eviction-lasso"
+				} else if onlyFresh {
 					sig = "c15-lasso-bound-then-evicted-in-same-cycle"
 				} else if noBeneficiaryStarts {
 					sig = "c15-lasso-evictions-for-nominee-that-never-starts"
